@@ -14,6 +14,7 @@ import DeapModel.Lemmas.C11Ex
 import DeapModel.Lemmas.C11Hist
 import DeapModel.Lemmas.C11Semantic
 import DeapModel.Lemmas.C11Pset
+import DeapModel.Lemmas.C11Tie
 
 namespace C11
 open GpTree
